@@ -36,6 +36,7 @@ UNITS = {
     "restartnum": [()],
     "siblings": [()],
     "tsformat": [()],
+    "cleanupcall": [()],
 }
 
 # property -> list of (unit, features)
@@ -45,7 +46,7 @@ PROP_UNITS = {
     "C04": [("state", ()), ("handle", ()), ("flw", ()), ("primary", ()), ("dispatch", ("async",)), ("stdw", ("async",)), ("lh", TF), ("lbuild", ()), ("handle_async", ("async",)), ("logger", TF), ("wmode", ()), ("wmode", ("async",)), ("multi", ())],
     "C05": [("handle_a", TF), ("handle_b", TF), ("handle_b2", TF), ("handle_c", TF), ("spec", TF), ("lbuild", ()), ("specparse", TF), ("handle_d", TF)],
     "C06": [("state", ()), ("timestamps", ()), ("builder", ()), ("collide", ()), ("latest", ()), ("ffilter", ()), ("hindex", ()), ("restartnum", ()), ("siblings", ()), ("infix", ()), ("lbuild", ())],
-    "C07": [("state", ()), ("listing", ()), ("cleanup", ()), ("collide", ()), ("builder", ()), ("builder", ("async",)), ("ffilter", ()), ("restartnum", ()), ("siblings", ()), ("infix", ()), ("lbuild", ())],
+    "C07": [("state", ()), ("listing", ()), ("cleanup", ()), ("collide", ()), ("builder", ()), ("builder", ("async",)), ("ffilter", ()), ("restartnum", ()), ("siblings", ()), ("infix", ()), ("lbuild", ()), ("cleanupcall", ())],
     "C08": [("state", ()), ("builder", ()), ("flw", ()), ("lbuild", ()), ("multi", ())],
     "C09": [("state", ()), ("timestamps", ()), ("builder", ()), ("lbuild", ())],
     "C13": [("logger", TF), ("flw", ()), ("multi", ()), ("primary", ()), ("lh", TF), ("lbuild", ()), ("builder", ())],
